@@ -145,6 +145,8 @@ type StepRec struct {
 	Crashed        bool
 	CrashStage     int
 	Restarted      bool
+	ConfCancelled  []uint64 // indexes of committed conf changes the application cancelled (applied with node id 0)
+	ManualSnap     bool     // the MsgSnap released in this step was sent by the application, not produced by raft
 	RestartApplied uint64
 	CommitRepaired bool
 
@@ -453,6 +455,15 @@ func (w *World) appApply(n *Node, rec *StepRec, ents []*pb.Entry) {
 		if cc != nil {
 			// raft must always hear about a conf change it hands out, even if the
 			// state machine has already applied the entry (re-delivery after restart).
+			// Like etcd, the application validates a committed change against the
+			// configuration it is applied to and cancels an invalid one (one that would
+			// remove the last voter) by applying it with the node id zeroed, which raft
+			// documents as the way to skip a change downstream of raft.
+			if _, err := confOfState(n.vs()).ApplyV2(int(cc.AsV2().GetTransition()), toChanges(cc.AsV2().GetChanges())); err != nil {
+				cc = &pb.ConfChange{Type: pb.ConfChangeAddNode.Enum(), NodeId: new(uint64(0))}
+				rec.ConfCancelled = append(rec.ConfCancelled, e.GetIndex())
+				w.Counters["conf_changes_cancelled_by_application"]++
+			}
 			cs = n.RN.ApplyConfChange(cc)
 			rec.ConfApplied = append(rec.ConfApplied, ConfApplied{Index: e.GetIndex(), CS: cs})
 		}
@@ -921,6 +932,17 @@ func (w *World) exec(ev Event, n *Node, rec *StepRec) {
 	case EvUnreachable:
 		w.Budget[BUnreach]--
 		n.RN.ReportUnreachable(uint64(ev.Peer))
+	case EvSendSnap:
+		// the application of a leader ships the snapshot its storage holds on its own initiative
+		if w.Budget[BSendSnap] > 0 {
+			w.Budget[BSendSnap]--
+		}
+		if vs := n.vs(); vs.State == raft.StateLeader {
+			if snap, err := n.Disk.Snapshot(); err == nil && snap.GetMetadata().GetIndex() > 0 {
+				rec.ManualSnap = true
+				w.release(rec, &pb.Message{Type: pb.MsgSnap.Enum(), From: new(n.ID), To: new(uint64(ev.Peer)), Term: new(vs.Term), Snapshot: proto.Clone(snap).(*pb.Snapshot)})
+			}
+		}
 	case EvReportSnap:
 		for i, p := range n.SnapObl {
 			if p == uint64(ev.Peer) {
